@@ -391,3 +391,63 @@ func (*c18) Exhaustive(tier string) []any {
 	}
 	return out
 }
+
+// Shrink: greedily drop queries, charts and entries while the same violation persists.
+func (*c18) Shrink(ci any, fails func(c any) bool) any {
+	c := ci.(c18Case)
+	clone := func(x c18Case) c18Case {
+		y := x
+		y.Gets = append([]c18Get{}, x.Gets...)
+		y.Tags = append([]c18TagQ{}, x.Tags...)
+		y.Res = append([][]c18Dep{}, x.Res...)
+		y.Cmps = nil
+		y.File.Charts = nil
+		for _, ch := range x.File.Charts {
+			y.File.Charts = append(y.File.Charts, c18Chart{Key: ch.Key, Entries: append([]c18Entry{}, ch.Entries...)})
+		}
+		return y
+	}
+	cur := clone(c)
+	if !fails(cur) {
+		return c
+	}
+	for i := len(cur.Gets) - 1; i >= 0; i-- {
+		cand := clone(cur)
+		cand.Gets = append(cand.Gets[:i], cand.Gets[i+1:]...)
+		if fails(cand) {
+			cur = cand
+		}
+	}
+	for i := len(cur.Tags) - 1; i >= 0; i-- {
+		cand := clone(cur)
+		cand.Tags = append(cand.Tags[:i], cand.Tags[i+1:]...)
+		if fails(cand) {
+			cur = cand
+		}
+	}
+	for i := len(cur.Res) - 1; i >= 0; i-- {
+		cand := clone(cur)
+		cand.Res = append(cand.Res[:i], cand.Res[i+1:]...)
+		if fails(cand) {
+			cur = cand
+		}
+	}
+	for i := len(cur.File.Charts) - 1; i >= 0; i-- {
+		cand := clone(cur)
+		cand.File.Charts = append(cand.File.Charts[:i], cand.File.Charts[i+1:]...)
+		if fails(cand) {
+			cur = cand
+		}
+	}
+	for ci := range cur.File.Charts {
+		for i := len(cur.File.Charts[ci].Entries) - 1; i >= 0; i-- {
+			cand := clone(cur)
+			es := cand.File.Charts[ci].Entries
+			cand.File.Charts[ci].Entries = append(es[:i], es[i+1:]...)
+			if fails(cand) {
+				cur = cand
+			}
+		}
+	}
+	return cur
+}
